@@ -572,6 +572,9 @@ pub enum EtagSpec {
     Replay(usize),
     /// Correct request hash, garbage signature bytes.
     HashOnly,
+    /// Correctly composed digest (the request's own key id and nonce) signed by ANOTHER key of the client's key
+    /// set (e.g. a retired key whose private half leaked): not the key the request named.
+    OtherHeldKey,
 }
 impl EtagSpec {
     pub fn label(&self) -> &'static str {
@@ -585,6 +588,7 @@ impl EtagSpec {
             EtagSpec::OtherBody => "otherbody",
             EtagSpec::Replay(_) => "replay",
             EtagSpec::HashOnly => "hashonly",
+            EtagSpec::OtherHeldKey => "otherheldkey",
         }
     }
 }
@@ -763,6 +767,9 @@ pub struct Script {
     /// A timer implementation that completes `wait_until` at once when asked to (the bound counts as already
     /// reached); `wait_for` timers stay gates.  Switched on by a check at a moment of its choosing.
     pub until_timers_ready: bool,
+    /// (http request index, delta ns): the wall clock (only) is stepped by delta while that request is in flight
+    /// (a time sync, possibly backwards); applied when the answer is delivered
+    pub http_wall_steps: Vec<(usize, i128)>,
 }
 
 // ---------------------------------------------------------------------------------------------
